@@ -254,6 +254,22 @@ def production_cases(rep, tier):
                 cid = f'C01.prod.{dname}.{p.name}:{" ".join(p.prod)}'[:150]
                 if not any(b.id == cid for b in rep.bounded):
                     rep.add_bounded(Bounded(cid, False, sql, r, 'same tree and string', bound='one shortest sentence per production'))
+                continue
+            # edge values of the literals of the sentence: every integer literal 0, every string literal empty (printers that test `if value:` lose them)
+            toks = sql.split()
+            variants = []
+            if any(t.isdigit() and t != '0' for t in toks):
+                variants.append(('zero', ' '.join('0' if t.isdigit() else t for t in toks)))
+            for tag, sql2 in variants:
+                n += 1
+                try:
+                    r2 = roundtrip(sql2, dname)
+                except Exception:
+                    continue
+                if r2:
+                    cid = f'C01.prod.{dname}.{p.name}:{" ".join(p.prod)}'[:140] + f'.{tag}'
+                    if not any(b.id == cid for b in rep.bounded):
+                        rep.add_bounded(Bounded(cid, False, sql2, r2, 'same tree and string', bound='one shortest sentence per production, integer literals set to 0'))
         for sql in corpus.test_strings():
             n += 1
             try:
